@@ -239,7 +239,33 @@ func runEsOnce(in sx.Tree) esRun {
 			}
 			l = append(l, v)
 		}
-		w.script[s.At(0).Int()] = l
+		if _, dup := w.script[s.At(0).Int()]; !dup { // the first entry for an id counts (as in the model's lookup)
+			w.script[s.At(0).Int()] = l
+		}
+	}
+	if end == 3 {
+		// a held scenario needs a worker for every batch (a pause waits until the flushed batch has REACHED the scripted
+		// service); with fewer workers (only the shrinker gets there) the scenario is skipped like an unreliable run
+		batches, pend := int64(0), int64(0)
+		for _, op := range in.At(1).Kids {
+			switch op.At(0).Int() {
+			case 0:
+				pend++
+				if pend == batchSize {
+					batches, pend = batches+1, 0
+				}
+			case 2:
+				if pend > 0 {
+					batches, pend = batches+1, 0
+				}
+			}
+		}
+		if pend > 0 {
+			batches++
+		}
+		if batches > workers {
+			return esRun{obs: sx.T(sx.T(sx.B(true), sx.B(false)), sx.T(), sx.T(), sx.L(0), sx.T())}
+		}
 	}
 	e := &elasticsearch.Elasticsearch{}
 	e.SetBulkServiceFactoryV(&esFactory{w: w})
